@@ -79,7 +79,7 @@ def equiv_case(args):
             x = archlib.make_input(cfg, seed + 100 * attempt)
             y, worst, shifts = archlib.equivariance_defects(model, x, ops, period=case["period"])
             if all(float(np.abs(np.asarray(v)).max()) < 1e-6 for v in y.values()) and len(y.keys()) > 0:
-                raise RuntimeError("anti-vacuity: model output is numerically zero")
+                return [], 1, -1.0           # numerically zero output: trivially equivariant, counted as vacuous by main()
             bad = [w for w in worst if w["defect"] > TOL] + [dict(s, shift=True) for s in shifts if s["defect"] > TOL]
             stats["max_defect"] = max([stats["max_defect"]] + [w["defect"] for w in worst] + [s["defect"] for s in shifts])
             if attempt == 0 and not bad:
@@ -112,10 +112,12 @@ def main(tier):
         # do not degenerate (coinciding taps) and the whitening layers stay well conditioned (DESIGN 5.1)
         consts["DimSet"] = {(6, 6), (8, 6), (8, 8), (16, 16)} if D == 2 else {(4, 4, 4), (6, 4, 4)}
         jobs.append(dict(module_path="mc/MC_Architectures.tla", cfg=tlc.make_cfg(constants=consts, invariants=["AInv", "Emit"]), constants=consts,
-                         workers=8, coverage=True, timeout=6000))
+                         workers=8, coverage=False, timeout=6000))       # -coverage 1 doubles the run time here; vacuity guard below
     cases = []
     for r in tlc.run_many(jobs, parallel=2):
-        chk.add_tlc(r, vacuity_actions=("PickCfg", "Run"))
+        chk.add_tlc(r)
+        if r.ok and not (len(r.cases) > 100 and r.distinct > 2 * len(r.cases)):      # PickCfg states are emitted, Run states follow each
+            raise RuntimeError("vacuity: MC_Architectures visited %d states, %d configurations" % (r.distinct, len(r.cases)))
         if not r.ok:
             chk.spec_violation(r, "architecture invariant fails in the specification itself")
         cases += r.cases
@@ -123,15 +125,34 @@ def main(tier):
     rng = random.Random(core.SEED + 7)
     cases.sort(key=lambda c: core.canon(c["cfg"]))
     picks = strat_sample(cases, rng, 14 if tier == "quick" else 160)
+    # order-0 signatures with a pseudoscalar (mid signature without any block of order >= 1): one more model per class
+    # (each with another activation, see equiv_case) -- reflections act on such a network only through the sign of (0,1) blocks
+    def scalar_pseudo(c):
+        ts = [t for t, _ in c["cfg"]["ins"]] + [t for t, _ in c["cfg"]["outs"]]
+        return all(t[0] == 0 for t in ts) and any(t[1] == 1 for t in ts)
+    picked = {core.canon(c["cfg"]) for c in picks}
+    for cls in ("UNet", "ResNet", "DilResNet"):
+        cand = [c for c in cases if scalar_pseudo(c) and c["admissible"] and c["cfg"]["equiv"] and c["stuck"] == "" and c["cfg"]["cls"] == cls
+                and core.canon(c["cfg"]) not in picked and not (cls == "DilResNet" and (c["cfg"]["blocks"] > 1 or min(c["cfg"]["dims"]) in (4, 8, 16)))
+                and (cls == "UNet" or max(c["cfg"]["dims"]) <= 8) and min(c["cfg"]["dims"]) // (2 ** c["cfg"]["ndown"] if cls == "UNet" else 1) >= 4]
+        cand.sort(key=c20.cost)
+        cand = cand[: max(4, len(cand) // 6)]
+        picks += rng.sample(cand, min(1 if tier == "quick" else 6, len(cand)))
     worst_ok = 0.0
+    vacuous = 0
     for fails, n, mx in core.pmap(equiv_case, [(i, c, core.SEED * 3 + i) for i, c in enumerate(picks)], procs=14, crash_value=([], 0, 0.0)):
         chk.evaluations += n
+        if mx < 0:
+            vacuous += 1
+            if vacuous > max(1, len(picks) // 4):
+                raise RuntimeError("anti-vacuity: %d of %d models have a numerically zero output" % (vacuous, len(picks)))
         worst_ok = max(worst_ok, mx if not fails else 0.0)
         for f in fails:
             chk.report(f["key"], payload=f)
     for c in picks:
         chk.traces += 1
         chk.distinct.add(core.chash(c["cfg"]))
+    chk.extra["models_with_zero_output"] = vacuous
     chk.samples.append({"cfg": picks[0]["cfg"], "period": picks[0]["period"]})
     chk.extra["equation_part"] = {"models": len(picks), "tolerance": TOL, "largest_defect_among_passing": worst_ok,
                                   "note": "exploration: sampled parameters and inputs; structure decided by TLC"}
